@@ -107,6 +107,8 @@ func gen(e *vlib.Env) (gcw.Program, int) {
 			s := gcw.SubSpec{Topic: t, Consumers: r.Range(1, 3), NackPct: []int{0, 0, 30, 60}[r.Intn(4)], Slow: r.Intn(5), NestedTo: -1, CancelAt: -1, StopAfter: -1}
 			if nested && t == 0 && (i == 0 || r.Chance(0.5)) {
 				s.NestedTo = 1
+				// half of the nesting subscriptions forward the received, still unsettled message object itself
+				s.NestedForward = vlib.HashStr(fmt.Sprintf("%s/forward/%d", e.ID(), i))%2 == 0
 			}
 			if neverAck && i == ns-1 && r.Chance(0.5) {
 				s.NeverAck = true
@@ -141,6 +143,9 @@ func shape(p gcw.Program) string {
 	}
 	for _, sb := range p.Subs {
 		s += fmt.Sprintf("|S%d:c%d:n%d:s%d:na%v:nest%d:d%v:cf%v:ca%d", sb.Topic, sb.Consumers, sb.NackPct, sb.Slow, sb.NeverAck, sb.NestedTo, sb.During, sb.CancelFree, sb.CancelAt)
+		if sb.NestedForward {
+			s += ":fwd"
+		}
 		if sb.HoldFirstMs > 0 {
 			s += fmt.Sprintf(":hold%dms", sb.HoldFirstMs)
 		}
